@@ -24,6 +24,8 @@ claimed={
         "SQL lexers/parser in harness/h are the oracle."),
  "C04":("At 19 positions where literal or name content can occur, the content is a vector of free bytes run through the real lexer, parser and compiler; the emitted SQL (containing those symbolic bytes) must lex, under both standard and ClickHouse rules, to the same token kinds as the same skeleton with benign content, with every other token byte-identical, no comment or unterminated token, and the content-derived token must decode under ClickHouse rules to exactly the PQL value.",
         "Nothing stubbed. SQL lexers in harness/h/sqllex.go are the oracle."),
+ "C01":("46 expression shapes with arbitrary binary operators in 12 expression positions are compiled by the real compiler; the emitted SQL expression is re-parsed with ClickHouse's operator priorities by an independent parser and mapped to a term of a value algebra (operators uninterpreted, coalesce/IS NULL/CASE interpreted); z3 decides, for all rows and all interpretations, equality with the term of the PQL expression as grouped by the real parser, and that ==/!= never yield NULL. Non-termination and comment-producing output are violations.",
+        "ClickHouse priority table and the PQL meaning table (harness/h/valmap.go) are trusted transcriptions; the real parser's grouping is C07's subject."),
 }
 checks=[]
 for p in props:
